@@ -333,7 +333,8 @@ def prop_sets(rng, tab, thorough):
     else:
         masks = sorted({rng.below(1 << n) | 1 << rng.below(n) for _ in range(600 if thorough else 150)})
     for m_ in masks:
-        out.append(([(tab[i], some_value(rng, tab[i])) for i in range(n) if m_ >> i & 1], {"props", "subset"}))
+        for _ in range(5 if thorough else 1):       # thorough: several value draws per subset
+            out.append(([(tab[i], some_value(rng, tab[i])) for i in range(n) if m_ >> i & 1], {"props", "subset"}))
     if 38 in tab:
         for k in (2, 3):
             l = []
@@ -553,8 +554,10 @@ def c04_core(ctx, mexe, iexe, ver, pkts, st):
         at2 = len(lines2)
         # (for the multi-megabyte packets the 4th op repeats the 3rd: the model is slow on them)
         wfpeer = "WF %d %s %s" % (ver, other, norm_peer)
-        lines2 += ["DEC %d %s %s %s" % (ver, fl, maxtok(ver, fl), full or "-"), "DEC %d %s %s %s" % (ver, other, maxtok(ver, other), full or "-"), wfpeer,
-                   ("DEC %d %s %d %s" % (ver, fl, rem, bs)) if "huge" not in tags or ctx.thorough() else wfpeer]
+        small = "huge" not in tags or ctx.thorough()
+        lines2 += ["DEC %d %s %s %s" % (ver, fl, maxtok(ver, fl), full or "-"),
+                   ("DEC %d %s %s %s" % (ver, other, maxtok(ver, other), full or "-")) if (small or fl == "C") else wfpeer, wfpeer,
+                   ("DEC %d %s %d %s" % (ver, fl, rem, bs)) if small else wfpeer]
         index2.append((p, fl, other, wf, norm_same, norm_peer, len(raw), at2, tags))
     impl2, model2 = both(ctx, mexe, iexe, lines2, "c04-v%d-pass2" % ver)
     if impl2 is None:
@@ -578,7 +581,7 @@ def c04_core(ctx, mexe, iexe, ver, pkts, st):
             fails.append(([enc_line, lines2[at + 3] + " #= " + want], "round trip with max = remaining length (v%d %s): %s, expected %s" % (ver, fl, short(impl2[at + 3]), short(want))))
         peer_wf = model2[at + 2] == "T"
         sends = CLIENT_SENDS if fl == "C" else BROKER_SENDS
-        if peer_wf:
+        if peer_wf and lines2[at + 1].startswith("DEC"):
             st["interop"] += 1
             wantp = "PKT %s %d" % (norm_peer, n)
             if impl2[at + 1] != wantp:
@@ -719,11 +722,12 @@ def gen_dec_ops(ctx, frames, rng, ver=4):
     p12 = prefixes(1) + prefixes(2)
     p35 = prefixes(3) + prefixes(4) + prefixes(5)
     i = 0
-    # every first byte x length prefixes of 1-2 bytes x bodies of <= 2 bytes
-    bodies = BODY + [a + b for a in BODY[1:] for b in BODY[1:]]
+    # every first byte x length prefixes of 1-2 bytes x bodies of <= 2 bytes (MQTT 5, quick tier: <= 1 byte + the 2-byte bodies for 16 first bytes)
+    bodies2 = [a + b for a in BODY[1:] for b in BODY[1:]]
+    bodies = BODY + (bodies2 if (ver == 4 or ctx.thorough()) else [])
     for b1 in range(256):
         for lp in p12:
-            for body in bodies:
+            for body in bodies + (bodies2 if (len(bodies) < 20 and b1 & 0x0f == 0) else []):
                 i += 1
                 ops.append(("%02x" % b1) + lp + body)
     # every packet type (natural flags + all-ones flags) x length prefixes of 3-5 bytes
